@@ -12,6 +12,8 @@ func TestVerifStream(t *testing.T) {
 		switch {
 		case strings.HasPrefix(ws[0], "acs."):
 			return verifAcs(ws)
+		case strings.HasPrefix(ws[0], "rng."):
+			return verifRng(ws)
 		}
 		return "", false
 	})
